@@ -788,15 +788,7 @@ def run_e2e(ctx, cases, label, stats):
         if got == (c["expect"], "ok"):
             stats["e2e_ok"] += 1
             continue
-        f = None
-        if c["sig_f1"]:
-            f = next((x for x in ctx.open_findings if x["id"] == "C01-F1"), None)
-        elif c["sig_f2"]:
-            f = next((x for x in ctx.open_findings if x["id"] == "C01-F2"), None)
-        if f:
-            ctx.known(f)
-            stats["known_hits"] += 1
-            continue
+        # C01-F1 / C01-F2 are fixed (e715c2f, c57720b): nothing is suppressed any more
         ctx.violation(f"compiled WebAssembly of a {c['family']} program prints {w.get('lines')} / ends {w.get('end')}; "
                       f"the source semantics give {c['expect']} / ok",
                       {"kind": "e2e", "label": label, "source": c["src"], "expected": c["expect"], "wasm": w,
@@ -823,25 +815,14 @@ def check_protocol_cases(ctx, cases, label, stats):
             conf = layout_conflations(a, c.get("deps"))
             if conf:
                 stats["layout_conflating"] += 1
-                f = next((x for x in ctx.open_findings if x["id"] == "C01-F1"), None)
-                other = [x for x in conf if not x[2]]
-                if f and not other:
-                    ctx.known(f)
-                else:
-                    oracle = ("enum layout conflates two values (unboxed payload type may be a non-pointer): "
-                              + ", ".join(f"{e} unboxes {t}" for e, t, _ in (other or conf)[:3]))
+                oracle = ("enum layout conflates two values (unboxed payload type may be a non-pointer): "
+                          + ", ".join(f"{e} unboxes {t}" for e, t, _ in conf[:3]))
             if "U(" in a:
                 stats["layout_unboxed"] += 1
         elif c["kind"] == "tailrec":
             tie, oracle = tailrec_compare(c, a, m)
             if " while " in a:
                 stats["tailrec_rewritten"] += 1
-            if oracle and c["backward"]:
-                f = next((x for x in ctx.open_findings if x["id"] == "C01-F2"), None)
-                if f:
-                    ctx.known(f)
-                    stats["known_hits"] += 1
-                    oracle = None
         else:
             tie, oracle = cpe_compare(c, a, m)
         payload = {"protocol": c["kind"], "label": label, "ops": [c["line"]], "impl": a, "model": m}
@@ -898,7 +879,7 @@ def run(ctx):
     n_layout, n_tail, n_cpe, n_e2e = ctx.scale((500, 1200, 700, 200), (6000, 15000, 9000, 2500))
     # protocol cases
     cases = [layout_case(rng.fork()) for _ in range(n_layout)]
-    cases += [tailrec_case(rng.fork(), allow_backward=(i % 5 == 0)) for i in range(n_tail)]
+    cases += [tailrec_case(rng.fork(), allow_backward=(i % 2 == 0)) for i in range(n_tail)]
     cases += [cpe_case(rng.fork(), rotate_bias=4) for _ in range(n_cpe)]
     for i in range(0, len(cases), 400):
         check_protocol_cases(ctx, cases[i:i + 400], f"generated seed={ctx.seed}", stats)
